@@ -83,7 +83,11 @@ class AsyncEngine:
         self._async_schedule_next_cache_cleanup()
         await self._async_create_endpoints()
         assert self.running_event is not None
-        self.running_event.set()
+        if self.zc.done:
+            # Closed while the endpoints were being created: close them again
+            self._async_shutdown()
+        else:
+            self.running_event.set()
         if loop_thread_ready:
             loop_thread_ready.set()
 
